@@ -74,6 +74,11 @@ def check(ctx):
         s = [ord(c) for c in line]
         for sh in ("mshell", "mshell_tables", "rshell", "rshell_tables"):
             lines.append(call(sh, s))
+        if i % 3 == 0:     # a handler that dispatches another line (macro / repeat / alias) and then uses its own arguments again
+            k2 = rng.randrange(0, 6)
+            inner = [ord(c) for c in " ".join(rng.choice(words) for _ in range(k2))]
+            for sh in ("mshell", "mshell_tables", "rshell", "rshell_tables"):
+                lines.append(call(sh + "_nested", s, inner))
         lines.append(call("argv", s, n=rng.choice([0, 1, 2, 3, 10, 11])))
         lines.append(call("argv_n", s, n=rng.choice([0, 1, 2, 3, 10])))
     comps = ["dev", "null", ".", "..", "a", "", "x.y", ".hidden", "b"]
